@@ -266,7 +266,7 @@ def unit_split(sess, ctx):
             r = st.new_obj("IReader", {})
             sr, sw, ch, bs = Int(tag + ".sr"), Int(tag + ".sw"), Int(tag + ".ch"), Int(tag + ".block_size")
             eng.assume(And(sr >= 1, sw >= 1, ch >= 1, bs >= 1))
-            bd = Fl(R(bs) / R(sr))
+            bd = Fl(eng.spec_div(bs, sr))
             st.heap[r.oid].update({"sr": sr, "sw": sw, "ch": ch, "block_dur": bd, "sampling_rate": sr,
                                    "sample_width": sw, "channels": ch})
             st.ghost.setdefault("isa", {})[r.oid] = {"AudioReader": True, "AudioRegion": False, "AudioSource": False}
@@ -524,7 +524,7 @@ def unit_make_region(sess, ctx):
         eng.prove("C05:make_region:format", And(I(h["sampling_rate"]) == sr, I(h["sample_width"]) == sw, I(h["channels"]) == ch),
                   props=("C05",))
         eng.prove("C05:make_region:start-is-start_frame-times-window-duration",
-                  (h["start"].t == R(a) * bd.t) if isinstance(h["start"], Fl) else False, props=("C05",))
+                  (h["start"].t == eng.spec_mul(a, bd)) if isinstance(h["start"], Fl) else False, props=("C05",))
         return None
     sess.run_unit(u, eng, run_)
     return u
